@@ -1472,6 +1472,106 @@ func c09Constructs(r *Rng, tier string, rep *Report) {
 		c09CompareExp(rep, g.buf, tk.tb, tk.te, g.exp)
 		rep.Eval(fmt.Sprintf("k%d:%x", tk.k, g.buf), len(g.exp) >= 3, fmt.Sprintf("k%d", tk.k))
 	}
+	// template mode, attribute names: AttrKey() is lower-cased exactly when the NAME contains no region, whatever the value
+	// contains or is followed by (the case of a template is never changed; a template in the value does not concern the name)
+	c09CompareExp(rep, []byte("<a CLASS=\"btn {{.X}}\">"), "{{", "}}", []c09ExpTok{
+		{ty: html.StartTagToken, data: []byte("<a"), ctx: "starttag"},
+		{ty: html.AttributeToken, text: []byte("class"), val: []byte("\"btn {{.X}}\""), chkVal: true, ctx: "attr-case"},
+		{ty: html.StartTagCloseToken, ctx: "close"}})
+	for i := 0; i < n/4; i++ {
+		tk := c09TmplKinds[1+i%(len(c09TmplKinds)-1)]
+		d, exp := c09AttrCaseDoc(r, tk.tb, tk.te)
+		c09CompareExp(rep, d, tk.tb, tk.te, exp)
+		rep.Eval(fmt.Sprintf("ac%d:%x", tk.k, d), len(exp) >= 4, fmt.Sprintf("attrcase-k%d", tk.k))
+	}
+}
+
+// c09AttrCaseDoc: one start tag whose attributes have upper / mixed-case names, with regions in the name, in the value
+// (quoted and unquoted) or glued behind the value. The expectation is written from the property: names are lower-cased
+// unless the name itself contains a region; values are verbatim; a region behind a quoted value is not part of AttrVal().
+func c09AttrCaseDoc(r *Rng, tb, te string) ([]byte, []c09ExpTok) {
+	region := func() string { return tb + r.PickStr([]string{" .X ", "x", " A.b ", ""}) + te }
+	tag := r.PickStr([]string{"a", "DIV", "Input", "p"})
+	buf := []byte("<" + tag)
+	exp := []c09ExpTok{{ty: html.StartTagToken, data: []byte("<" + strings.ToLower(tag)), ctx: "starttag"}}
+	na := 1 + r.Intn(3)
+	for i := 0; i < na; i++ {
+		buf = append(buf, r.PickStr([]string{" ", "\n", "  ", "\t"})...)
+		// the name
+		var name []byte
+		nameHasT := false
+		kn := 1 + r.Intn(5)
+		at := -1
+		if r.Chance(1, 4) {
+			at = r.Intn(kn + 1)
+		}
+		for j := 0; j <= kn; j++ {
+			if j == at {
+				name = append(name, region()...)
+				nameHasT = true
+			}
+			if j < kn {
+				name = append(name, r.Pick([]byte("ABCDEFXYZabcxyz-_:9")))
+			}
+		}
+		buf = append(buf, name...)
+		key := name
+		if !nameHasT {
+			key = c09LowerASCII(name)
+		}
+		// the value
+		var val []byte
+		chk := true
+		switch r.Intn(5) {
+		case 0: // no value
+			val = nil
+		case 1: // unquoted, plain bytes with a region in the middle or at the end
+			v := "v" + r.PickStr([]string{"", "1", "Ab"})
+			if r.Chance(2, 3) {
+				v += region() + r.PickStr([]string{"", "w", "Z9"})
+			}
+			val = []byte(v)
+		case 2: // unquoted, regions only
+			v := region()
+			if r.Chance(1, 3) {
+				v += region()
+			}
+			val = []byte(v)
+		default: // quoted, with regions inside
+			q := r.PickStr([]string{"\"", "'"})
+			v := q + r.PickStr([]string{"", "btn ", "A>b ", "x=y/"})
+			if r.Chance(3, 4) {
+				v += region() + r.PickStr([]string{"", " c", ">"})
+				if r.Chance(1, 4) {
+					v += region()
+				}
+			}
+			v += q
+			val = []byte(v)
+		}
+		if val != nil {
+			buf = append(buf, r.PickStr([]string{"=", "=", " = ", "=\n"})...)
+			buf = append(buf, val...)
+			if (val[0] == '"' || val[0] == '\'') && r.Chance(1, 3) {
+				buf = append(buf, region()...) // glued behind the closing quote: in the token, not in AttrVal()
+			}
+		} else {
+			val = []byte{}
+			chk = false
+		}
+		exp = append(exp, c09ExpTok{ty: html.AttributeToken, text: key, val: val, chkVal: chk, ctx: "attr-case"})
+	}
+	closer := r.PickStr([]string{">", " >", "/>"})
+	if last := exp[len(exp)-1]; closer == "/>" && last.chkVal && len(last.val) > 0 && last.val[0] != '"' && last.val[0] != '\'' {
+		closer = " />" // a '/' directly behind an unquoted value belongs to the value
+	}
+	buf = append(buf, closer...)
+	if buf[len(buf)-2] == '/' {
+		exp = append(exp, c09ExpTok{ty: html.StartTagVoidToken, ctx: "close"})
+	} else {
+		exp = append(exp, c09ExpTok{ty: html.StartTagCloseToken, ctx: "close"})
+	}
+	return buf, exp
 }
 
 // c09Templates: a delimited region is never split and HasTemplate() is true exactly for the tokens that contain one.
